@@ -389,17 +389,19 @@ AdjInv(x) == IF Norm(x).d = One THEN -Adj(x) ELSE -Adj(x) - 1
 InvTerminates(x, p) ==
   LET K == p - 1 - AdjInv(x) + x.sc IN
   K >= 0 /\ Len(x.d) <= K + 1 /\ NMod(Pow10(K), x.d) = <<>>
+\* value-level core: y is acceptable as the p-digit reciprocal of x
+InverseValOK(x, p, y) ==
+  LET xy == DMul(x, y)
+      err == DAbs(DSub(xy, DOne))                          \* |x*y - 1|
+      u == Ulp(-(AdjInv(x) - p + 1))
+  IN IF y.s # x.s THEN Bad("sign")
+     ELSE IF err.d = <<>> THEN OK                          \* exactly 1/x
+     ELSE IF DCmp(err, DMul(DAbs(x), u)) >= 0 THEN Bad("one-unit-or-more-off")
+     ELSE Chk(~InvTerminates(x, p), "terminating-reciprocal-not-exact")
 InverseOK(x, p, m, r) ==
   IF IsTimeout(r) THEN Bad("does-not-terminate")
   ELSE IF ~IsD(r) THEN Bad("outcome-kind")
-  ELSE LET y == DecOf(r.d)
-           xy == DMul(x, y)
-           err == DAbs(DSub(xy, DOne))                          \* |x*y - 1|
-           u == Ulp(-(AdjInv(x) - p + 1))
-       IN IF y.s # x.s THEN Bad("sign")
-          ELSE IF err.d = <<>> THEN OK                          \* exactly 1/x
-          ELSE IF DCmp(err, DMul(DAbs(x), u)) >= 0 THEN Bad("one-unit-or-more-off")
-          ELSE Chk(~InvTerminates(x, p), "terminating-reciprocal-not-exact")
+  ELSE InverseValOK(x, p, DecOf(r.d))
 \* mirror law: inverse(-x) under the mirrored mode is -inverse(x): one history entry per (|x|, p, mode on the magnitude)
 InvKey(x, p, m) == <<Norm(DAbs(x)), p, IF x.s < 0 THEN Mirror(m) ELSE m>>
 InvAgreeOK(hs, x, p, m, r) ==
